@@ -470,6 +470,9 @@ def r08_9(ctx):
     pending_effect_placement(ctx)
     op_list_completeness(ctx)
     r06_1(ctx)
+    from .c06 import r06_4
+
+    r06_4(ctx)  # a call in a loop condition would have to run before EVERY evaluation of the condition: such a loop is rejected
 
 
 @rule("R08.10", "C08", "a routine's parameters have exactly the declared types (no promotion of narrow parameters), and the literals of its body are typed by their suffix in either spelling", min_instances=30)
